@@ -108,9 +108,7 @@ theorem intoContainer_W {n : Node} (hn : WN n = true) : ConW (intoContainer n) :
 
 theorem enter_W {cr key next} (hn : WN next = true) : ConW (enter cr key next) := by
   unfold enter
-  split
-  · trivial
-  · exact intoContainer_W hn
+  exact intoContainer_W hn
 
 theorem decodeRoot_W {c : Cst} (h : WFC c = true) : ConW (decodeRoot c) := by
   cases c with
@@ -127,16 +125,12 @@ theorem conGet_W {o self con key} (hs : WN self = true) (hc : WN con = true) :
   | doc keys obj =>
     simp only [conGet]
     split
-    · exact hs
-    · split
-      · rename_i n hl
-        exact (WN_doc keys obj).1 hc _ (lookupN_mem hl)
-      · trivial
+    · rename_i n hl
+      exact (WN_doc keys obj).1 hc _ (lookupN_mem hl)
+    · trivial
   | docNil =>
     simp only [conGet]
-    split
-    · exact hs
-    · trivial
+    trivial
   | ary nodes =>
     have hm := (WN_ary nodes).1 hc
     simp only [conGet]
@@ -267,14 +261,10 @@ theorem wrapWalk_W {α} {Q : α → Prop} {o con key} {w : Walk α}
   cases w with
   | done child' a =>
     simp only [wrapWalk]
-    split
-    · exact hw
-    · exact ⟨putChild_W hc hw.1, hw.2⟩
+    exact ⟨putChild_W hc hw.1, hw.2⟩
   | notFound child' =>
     simp only [wrapWalk]
-    split
-    · exact hw
-    · exact putChild_W hc hw
+    exact putChild_W hc hw
   | fail e => trivial
   | panic => trivial
   | doneSelf s a => exact hw
@@ -488,11 +478,7 @@ theorem opMove_W {o r op} (hr : RootW r) : OutW (opMove o r op) := by
         | err e => trivial
         | ok x =>
           rw [hg] at hg'
-          have hv : WN (if key = [] then (deepCopy o.esc x).1 else x) = true := by
-            split
-            · exact WN_deepCopy o.esc hg'
-            · exact hg'
-          exact liftAct_W (conRemove_W hc) hv
+          exact liftAct_W (conRemove_W hc) hg'
       have hcont : ∀ r1 val, RootW r1 → WN val = true → OutW (liftWalk r1 (addWalk o r1 op.path val)
           (fun _ => .err .missing)) := by
         intro r1 val h1 hv
@@ -603,9 +589,7 @@ theorem opTest_W {o r op} (hr : RootW r) : OutW (opTest o r op) := by
       | mk b val' =>
         simp only []
         split
-        · split
-          · exact ⟨hc, trivial⟩
-          · exact ⟨hc, trivial⟩
+        · exact ⟨hc, trivial⟩
         · trivial
     | ok val =>
       simp only []
@@ -618,9 +602,7 @@ theorem opTest_W {o r op} (hr : RootW r) : OutW (opTest o r op) := by
         split
         · split
           · exact ⟨hc, trivial⟩
-          · split
-            · exact ⟨hc, trivial⟩
-            · exact ⟨putChild_W hc this, trivial⟩
+          · exact ⟨putChild_W hc this, trivial⟩
         · trivial
 
 /-! ### copy -/
@@ -647,6 +629,14 @@ theorem copySource_W {o r frm} (hr : RootW r) : WalkW (fun v => WN v = true) (co
   | err e => trivial
   | ok x => rw [hg] at hg'; exact ⟨hc, hg'⟩
 
+theorem copyFirst_W {o r frm} (hr : RootW r) : WalkW (fun v => WN v = true) (copyFirst o r frm) := by
+  unfold copyFirst
+  split
+  · split
+    · trivial
+    · exact ⟨hr.1, hr.1⟩
+  · exact copySource_W hr
+
 theorem destWalk_W {o r path} (hr : RootW r) : WalkW (fun _ => True) (destWalk o r path) :=
   withPath_W o r _ _ _ hr fun _ _ _ hc _ => ⟨hc, trivial⟩
 
@@ -655,7 +645,7 @@ theorem opCopy_W {o r acc op} (hr : RootW r) : OutW2 (opCopy o r acc op) := by
   split
   · trivial
   · rename_i frm _
-    have hw1 := copySource_W (o := o) (frm := frm) hr
+    have hw1 := copyFirst_W (o := o) (frm := frm) hr
     split
     · exact failOf_W
     · rename_i r1 h1
